@@ -13,7 +13,7 @@ from __future__ import annotations
 from ..facts import AnalysisError
 from ..terms import const, contains, show, strip_sites
 from ..util import NoInline, P, calls_to, engine, loc, param_at
-from .ordering import (arming, cancel_on_removal, PROTO, TS, Ctx, atomic_notifications, expiry_once, reboot_before_entries, reject_before_record)
+from .ordering import (arming, cancel_on_removal, every_removal_reported, PROTO, TS, Ctx, atomic_notifications, expiry_once, reboot_before_entries, reject_before_record)
 
 DISC = "sd.ServiceDiscover"
 OFFERED = "sd.ClientServiceListener.service_offered"
@@ -39,6 +39,7 @@ def check(run, prog, tier):
     # a stale TTL timer would report a live entry gone: cancel-on-replace and arming are part of truthfulness
     cancel_on_removal(cx, "T1")
     arming(cx, "T2")
+    every_removal_reported(cx, "A1", owners={"found_services"})
     reject_before_record(cx, "A1")  # a new entry is announced exactly once, a refresh is silent
 
     # ------------------------------------------------------------------ A2 who may notify
